@@ -275,4 +275,20 @@ def tasks():
 
 
 TRUSTED = TRUSTED_LIB
-ASSUMPTIONS = []
+ASSUMPTIONS = [
+    "HKDF idealisation (injective in the key for a fixed info) and unhexlify(hexlify(x)) == x: used by "
+    "lemma:handshakes_bind_key_and_role and lemma:other_key_is_rejected only; that a party without the transit key cannot "
+    "compute the handshake is the PRF assumption itself",
+    "in the _dataReceived task sender_hs(key)/receiver_hs(key) are uninterpreted functions of the key (their defining protocol "
+    "text is proved of build_sender_handshake/build_receiver_handshake and used by the lemmas): fewer hypotheses, same symbols",
+    "class invariant taken as precondition of _dataReceived: while negotiating (relay/start/handshake/wait-for-decision/go) "
+    "_negotiation_d is not None; Twisted delivers no dataReceived after connectionLost",
+    "Deferred.cancel/callback/errback, reactor.callLater, TimeoutMixin.setTimeout are boundary events: that a cancelled contender's "
+    "errback re-enters _remove/_failed/_maybe_done synchronously, that the timer really fires, and that connect() therefore fails "
+    "*by* its deadline are properties of Twisted, not decided here",
+    "'exactly one go per Common' is connection_ready's contract (go iff _winner was None, and then _winner is set and never "
+    "cleared); that two Connections never interleave inside connection_ready is the single-threaded reactor",
+    "aliasing: the Connection passed to connection_ready is not already the recorded winner (it would get 'nevermind')",
+    "Common._connect / connect (inlineCallbacks, endpoint construction), InboundConnectionFactory.connectionWasMade wiring, "
+    "_ThereCanBeOnlyOne.run/_cancel, the _done closure of _not_forever, startNegotiation: not under contract",
+]
